@@ -15,6 +15,7 @@ import (
 	"strings"
 	"sync"
 	"text/template"
+	"time"
 
 	"verif/ev"
 	"verif/gen"
@@ -162,6 +163,7 @@ func BuildOpt(t *gen.Tools, pool *gen.Pool, tag string, items []*Item, race bool
 	// compile; items whose generated code does not compile are dropped (reported in CompileErr, they are C09's
 	// subject) and the rest is built again, so that one broken output does not take the whole corpus down
 	reFail := regexp.MustCompile(`(?m)^(?:# vt/)?g/(g[0-9a-f]+)/`)
+	troubles := 0
 	for round := 0; ; round++ {
 		var pkgs []string
 		for _, it := range c.Items {
@@ -185,6 +187,15 @@ func BuildOpt(t *gen.Tools, pool *gen.Pool, tag string, items []*Item, race bool
 		out, err := cmd.CombinedOutput()
 		if err == nil {
 			break
+		}
+		if gen.ToolchainTrouble(string(out)) {
+			// the build environment, not the generated code: try again, then give up as a harness error
+			if troubles++; troubles > 3 {
+				return c, fmt.Errorf("corpus build fails for reasons of the build environment: %v\n%s", err, clip(string(out), 3000))
+			}
+			time.Sleep(5 * time.Second)
+			round--
+			continue
 		}
 		failed := map[string]bool{}
 		for _, m := range reFail.FindAllStringSubmatch(string(out), -1) {
